@@ -1,0 +1,15 @@
+//go:build verif
+
+package frugal
+
+// verifSubjectID returns the number the verification harness encodes as the
+// trailing decimal digits of a NATS reply subject (0 when there are none). It
+// only feeds the ids passed to verifYield by the NATS server's yield points.
+func verifSubjectID(subject string) uint64 {
+	var id, mul uint64 = 0, 1
+	for i := len(subject) - 1; i >= 0 && subject[i] >= '0' && subject[i] <= '9'; i-- {
+		id += uint64(subject[i]-'0') * mul
+		mul *= 10
+	}
+	return id
+}
